@@ -11,14 +11,22 @@ import (
 
 // TestFaultAccounting re-uses the C02 scenarios with secret accounting on: every
 // single metastore/KMS fault position, every AEAD call, every secret allocation and every open / re-protect of a key secret of
-// the operation is failed in turn.
+// the operation (an encrypt, or a decrypt of a record written during setup) is failed in turn; afterwards an encrypt, a decrypt and an encrypt on another partition must succeed.
 func TestFaultAccounting(t *testing.T) {
 	kit.Check(t, 150, 1600, func(t *rapid.T) {
-		sc := world.DrawScenario(t, world.KeyStates)
+		op := rapid.SampledFrom([]string{"encrypt", "encrypt", "decrypt"}).Draw(t, "op")
+		states := world.KeyStates
+		if op == "decrypt" {
+			states = []string{"warm-held", "warm-fresh", "stale", "expired", "ik-revoked", "sk-revoked", "ext-rotated", "ext-rotated-sk"}
+		}
+		sc := world.DrawScenario(t, states)
 		clone := func(faults ...world.FaultAt) *world.FaultScenario {
 			c := *sc
 			c.Faults = faults
 			return &c
+		}
+		runAccounted := func(t *rapid.T, sc *world.FaultScenario) ([]kit.Call, int, int, int) {
+			return runAccountedOp(t, sc, op)
 		}
 		seq, aeadN, allocN, readsN := runAccounted(t, clone())
 		for i, c := range seq {
@@ -46,10 +54,18 @@ func failSc(t *rapid.T, sc *world.FaultScenario, format string, args ...any) {
 	t.Fatalf("C09 violated: %s\n  scenario: %s\n  calls of the operation: %v\n%s", msg, sc.Describe(), sc.OpCalls(), sc.W.Describe())
 }
 
-func runAccounted(t *rapid.T, sc *world.FaultScenario) ([]kit.Call, int, int, int) {
+func runAccountedOp(t *rapid.T, sc *world.FaultScenario, op string) ([]kit.Call, int, int, int) {
 	mismatch := map[string]bool{}
 	var rec *world.Rec
 	ev := sc.Exec(t, func(sc *world.FaultScenario) *world.Event {
+		if op == "decrypt" && sc.Rec0 != nil {
+			// the operation under faults is a decrypt of a record written during setup
+			e, _ := sc.W.Decrypt(sc.Sess, sc.Rec0, false, false)
+			if e.Err == nil {
+				rec = sc.Rec0
+			}
+			return e
+		}
 		e, r := sc.W.Encrypt(sc.Sess, []byte("payload-under-faults"), false, false)
 		rec = r
 		return e
@@ -97,6 +113,16 @@ func runAccounted(t *rapid.T, sc *world.FaultScenario) ([]kit.Call, int, int, in
 	if ev2.Err != nil {
 		failSc(t, sc, "after the faults stopped the next encrypt fails: %v", ev2.Err)
 	}
+	if sc.Rec0 != nil {
+		// ... and so does a decrypt through the same caches (a key released once too often is still cached, destroyed)
+		if ev3, _ := w.Decrypt(sc.Sess, sc.Rec0, false, false); ev3.Err != nil {
+			failSc(t, sc, "after the faults stopped a decrypt of a record written before them fails: %v", ev3.Err)
+		}
+		o, fresh := w.SessionFor(sc.W.Procs[0], sc.W.Parts[1], false)
+		if ev4, _ := w.Encrypt(o, []byte("other partition after faults"), false, fresh); ev4.Err != nil {
+			failSc(t, sc, "after the faults stopped an encrypt on another partition of the same factory fails: %v", ev4.Err)
+		}
+	}
 	for _, fp := range w.MismatchParents(ev2) {
 		mismatch[fp] = true
 	}
@@ -121,9 +147,9 @@ func runAccounted(t *rapid.T, sc *world.FaultScenario) ([]kit.Call, int, int, in
 	if rec != nil {
 		outcome = "record"
 	}
-	shape := fmt.Sprintf("fault|%s|%s|%v|%s", sc.State, world.CacheClass(pol), sc.Faults, outcome)
+	shape := fmt.Sprintf("fault|%s|%s|%s|%v|%s", op, sc.State, world.CacheClass(pol), sc.Faults, outcome)
 	kit.Rec.Case(shape, len(sc.Faults) > 0 && sc.AnyFired(), func() any {
-		return map[string]any{"state": sc.State, "policy": world.PolicyString(pol), "faults": fmt.Sprint(sc.Faults), "outcome": outcome, "secrets_created_by_op": len(created)}
+		return map[string]any{"operation": op, "state": sc.State, "policy": world.PolicyString(pol), "faults": fmt.Sprint(sc.Faults), "outcome": outcome, "secrets_created_by_op": len(created)}
 	})
 	if len(sc.Faults) > 0 {
 		kit.Rec.Label("fault:" + sc.Faults[0].Target + ":" + outcome)
